@@ -110,6 +110,8 @@ class FactFlow:
                 t = const_truth(a.value, mutable_ok=True)     # method calls on the name are tracked in out_facts
                 if t is not None:
                     facts = facts | {(a.targets[0].id, t)}
+                if isinstance(a.value, ast.Constant):
+                    facts = facts | {(a.targets[0].id + '#isnone', a.value.value is None)}
             return facts
         if isinstance(a, (ast.AugAssign, ast.AnnAssign)):
             names = set()
@@ -246,3 +248,28 @@ def path_text(path, limit=8):
             if not out or out[-1] != h:
                 out.append(h)
     return out[-limit:]
+
+
+
+def only_via_feasible(cfg, target, test_pred, label, flow=None):
+    """Like par.only_via, but over feasible paths only (truthiness / is-None facts of locals): True when every feasible
+    way from the entry to ``target`` takes a ``label`` edge of a test node satisfying ``test_pred``."""
+    flow = flow or FactFlow(cfg)
+    tests = {n for n in cfg.nodes if n.kind == 'test' and test_pred(n.ast)}
+    if not tests:
+        return False
+    start = (cfg.entry, frozenset())
+    seen = {start}
+    todo = [start]
+    while todo:
+        node, facts = todo.pop()
+        if node is target:
+            return False
+        for s, lab, f2 in flow.successors(node, facts):
+            if node in tests and lab == label:
+                continue                # a way through the required edge is fine: do not follow it
+            nxt = (s, f2)
+            if nxt not in seen:
+                seen.add(nxt)
+                todo.append(nxt)
+    return True
